@@ -144,7 +144,10 @@ Fixpoint eval (fuel : nat) (e : env) (out : list Z) (ns : list node) : outcome :
                           | Some d => (match o with Some x => x | None => d end) :: a
                           | None => a
                           end in
-              match eval f e out (subst 50 args (m_body m)) with
+              let body := subst 50 args (m_body m) in
+              (* a size guard: programs whose expansion explodes are given up (reported as out of fuel, never compared) *)
+              if Nat.ltb 4000 (length body) then OutOfFuel else
+              match eval f e out body with
               | Ok e' out' => continue e' out'
               | other => other
               end
